@@ -528,23 +528,19 @@ func (p *PruneSolver) Feasible(assumes []*Term) bool {
 	}
 	script := s.Render("", "", nil, asserts, "(check-sat)\n")
 	cfgs := solverConfigs(1, 0)
-	// race z3 with cvc5's int-blasting (arithmetic with multiplications / divisions by constants)
-	type r struct{ st string }
-	ch := make(chan r, 2)
-	ctx, cancel := context.WithCancel(context.Background())
-	defer cancel()
-	go func() { st, _, _ := runSolverCtx(ctx, cfgs[0], script, 2*time.Second); ch <- r{st} }()
-	go func() {
-		st, _, _ := runSolverCtx(ctx, cfgs[4], "(set-logic ALL)\n"+script, 2*time.Second)
-		ch <- r{st}
-	}()
-	for i := 0; i < 2; i++ {
-		x := <-ch
-		if x.st == "unsat" {
+	st, _, _ := runSolver(cfgs[0], script, 2*time.Second)
+	if st == "unsat" {
+		return false
+	}
+	if st == "sat" {
+		return true
+	}
+	// undecided by z3 within a second: arithmetic with multiplications / divisions by constants is
+	// often decided by cvc5's int-blasting
+	if strings.Contains(script, "(bvmul ") || strings.Contains(script, "(bvurem ") || strings.Contains(script, "(bvudiv ") || strings.Contains(script, "(bvsrem ") || strings.Contains(script, "(bvsdiv ") {
+		st, _, _ = runSolver(cfgs[4], "(set-logic ALL)\n"+script, 2*time.Second)
+		if st == "unsat" {
 			return false
-		}
-		if x.st == "sat" {
-			return true
 		}
 	}
 	return true
